@@ -85,27 +85,27 @@ type CometVal struct {
 
 // BlockRecord is a produced block, enough to replay it on a twin node.
 type BlockRecord struct {
-	Height   int64
-	Time     time.Time
-	Txs      [][]byte
-	Votes    []abci.VoteInfo
-	Proposer []byte
+	Height      int64
+	Time        time.Time
+	Txs         [][]byte
+	Votes       []abci.VoteInfo
+	Proposer    []byte
 	Misbehavior []abci.Misbehavior
 }
 
 // BlockResult is what the stub keeps of a FinalizeBlock.
 type BlockResult struct {
-	Height   int64
-	Time     time.Time
-	Txs      [][]byte
-	Results  []*abci.ExecTxResult
-	Events   []abci.Event
-	AppHash  []byte
-	Updates  []abci.ValidatorUpdate
-	Panic    string // non-empty if FinalizeBlock panicked
+	Height     int64
+	Time       time.Time
+	Txs        [][]byte
+	Results    []*abci.ExecTxResult
+	Events     []abci.Event
+	AppHash    []byte
+	Updates    []abci.ValidatorUpdate
+	Panic      string // non-empty if FinalizeBlock panicked
 	PanicStack string
-	Err      error
-	Digest   string
+	Err        error
+	Digest     string
 }
 
 // Node is the real application plus the CometBFT stub state.
@@ -115,22 +115,22 @@ type Node struct {
 	Logger  *CaptureLogger
 	ChainID string
 
-	Height int64 // last committed height
+	Height int64     // last committed height
 	Time   time.Time // last block time
 
 	// validator sets by the height at which they vote: valsets[h] signs block h
-	curVals  map[string]*CometVal // set that will sign the NEXT block
+	curVals        map[string]*CometVal     // set that will sign the NEXT block
 	pendingUpdates [][]abci.ValidatorUpdate // updates from block h take effect at h+2
-	Down     map[string]bool // cons addr hex -> node is down (vote absent)
+	Down           map[string]bool          // cons addr hex -> node is down (vote absent)
 
 	// comet-side mempool (raw txs in arrival order), mirrored for recheck
 	Pending [][]byte
 
-	Restarts int
+	Restarts    int
 	LastAppHash []byte
-	Blocks   []BlockRecord // recorded if Record is true
-	Record   bool
-	Opts     []func(*baseapp.BaseApp)
+	Blocks      []BlockRecord // recorded if Record is true
+	Record      bool
+	Opts        []func(*baseapp.BaseApp)
 }
 
 // NewNode constructs the application on db (a fresh MemDB if nil).
